@@ -127,7 +127,7 @@ def main():
         ],
         "checks": checks,
         "not_applicable": na,
-        "notes": "Exit codes of ./check: 0 held / 1 VIOLATION (with replay file) / 3 checker crash. Known findings and fixed defects: known_findings.json.",
+        "notes": "Exit codes of ./check: 0 held / 1 VIOLATION (with replay file) / 3 checker crash. Known findings and fixed defects: known_findings.json. Every check runs under two watchdogs (1500 s quick / 6 h thorough, VERIF_WATCHDOG_S overrides): a library call that has not returned by then is reported as a VIOLATION (no-failing-input-found), the checker's own code exceeding it as a crash (DESIGN 10.9). Regressions over scratch copies (never /repo): tools/seed_regression.py (165 seeded property-breaking changes), tools/benign_regression.py (32 behaviour-preserving patches, must stay quiet), tools/cross_regression.py, tools/mutation_sweep.py.",
     }
     with open(os.path.join(ROOT, "MANIFEST.json"), "w") as f:
         json.dump(man, f, indent=1)
